@@ -149,14 +149,15 @@ Proof.
 Qed.
 
 Theorem c05_zero_window_ok_open_trace : forall mk c (s0 : vsock) ops,
-  vsock_new cci mk c = Some s0 -> forallb (c05_zero_window_ok_open c) (ftrace cci s0 ops) = true.
+  0 <= vc_isn c < M16 -> vsock_new cci mk c = Some s0 ->
+  forallb (c05_zero_window_ok_open c) (ftrace cci s0 ops) = true.
 Proof.
-  intros mk c s0 ops H0.
+  intros mk c s0 ops Hisn H0.
   apply (ftrace_forallb_live cci (fun s => ti s /\ C05_Segs.sp s /\ optc c s)).
   - intros s o (H1 & H2 & H3). apply c05_zero_window_ok_open_step; assumption.
   - intros s o (H1 & H2 & H3) Hl. split; [apply ti_vstep; exact H1|].
     split; [apply sp_vstep_live; assumption|apply optc_vstep; exact H3].
-  - split; [eapply ti_vsock_new; exact H0|]. split; [eapply sp_vsock_new; exact H0|eapply optc_vsock_new; exact H0].
+  - split; [eapply ti_vsock_new; exact H0|]. split; [eapply sp_vsock_new; [exact Hisn|exact H0]|eapply optc_vsock_new; exact H0].
 Qed.
 
 (* ================================================================== "no NEW payload into a zero window"
@@ -195,15 +196,15 @@ Proof.
 Qed.
 
 Theorem c05_zero_window_strict_or_d16_open_trace : forall mk c (s0 : vsock) ops,
-  vsock_new cci mk c = Some s0 ->
+  0 <= vc_isn c < M16 -> vsock_new cci mk c = Some s0 ->
   forallb (c05_zero_window_strict_or_d16_open c) (ftrace cci s0 ops) = true.
 Proof.
-  intros mk c s0 ops H0.
+  intros mk c s0 ops Hisn H0.
   apply (ftrace_forallb_live cci (fun s => ti s /\ C05_Segs.sp s /\ optc c s)).
   - intros s o (H1 & H2 & H3). apply c05_zero_window_strict_or_d16_open_step; assumption.
   - intros s o (H1 & H2 & H3) Hl. split; [apply ti_vstep; exact H1|].
     split; [apply sp_vstep_live; assumption|apply optc_vstep; exact H3].
-  - split; [eapply ti_vsock_new; exact H0|]. split; [eapply sp_vsock_new; exact H0|eapply optc_vsock_new; exact H0].
+  - split; [eapply ti_vsock_new; exact H0|]. split; [eapply sp_vsock_new; [exact Hisn|exact H0]|eapply optc_vsock_new; exact H0].
 Qed.
 
 End WithCC.
